@@ -8,6 +8,11 @@ DEX_FILES = ["Test.dex", "ExceptionHandling.dex", "AnalysisTest.dex", "StringTes
              "FieldsTest.dex", "InterfaceCls.dex", "classes.dex", "Annotation_classes.dex"]
 
 
+def dex_files(ctx):
+    """quick: the small files and classes.dex (2 291 methods); thorough adds Annotation_classes.dex (9 695 methods)."""
+    return DEX_FILES if ctx.thorough else DEX_FILES[:-1]
+
+
 def make_nodes(n, ins_lists=None):
     """n real StatementBlock nodes named '0'..'n-1' (real BasicBlock numbering / catch-type code is exercised)."""
     from androguard.decompiler.basic_blocks import StatementBlock
@@ -28,6 +33,7 @@ def build(nodes, edges, entry=0):
     for e in edges:
         if len(e) > 2 and e[2] == "c":
             g.add_catch_edge(nodes[e[0]], nodes[e[1]])
+            nodes[e[1]].in_catch = True          # what graph.make_node does for an exception target
         else:
             g.add_edge(nodes[e[0]], nodes[e[1]])
     g.entry = nodes[entry]
